@@ -2,7 +2,7 @@
    ids), the pipeline, refutations for the unrepaired shapes, examples. *)
 From Coq Require Import List ZArith NArith String Ascii Bool Arith Lia Permutation.
 Import ListNotations.
-From Dagrt Require Import Lang LangProofs Sched Transform TransformSem TransformBasics TransformHoist
+From Dagrt Require Import Lang LangProofs Sched Transform TransformSem TransformSide TransformBasics TransformHoist
      TransformSpec TransformMappers TransformLeaf TransformStmt TransformSd TransformTree TransformProj.
 
 (* ------------------------------------------------------------------------------------ *)
@@ -168,13 +168,13 @@ Section Four.
       (NoDup (tids t) -> NoDup (tids t')) /\
       (forall a, srel N (run F dg t a) (run F dg t' a)).
 
-  Theorem sd_correct lsr lbr snv ords t t' st' :
-    eliminate_self_dependencies lsr lbr snv ords t = TOk (t', st') ->
+  Theorem sd_correct lsr lbr snv sds ords t t' st' :
+    eliminate_self_dependencies lsr lbr snv sds ords t = TOk (t', st') ->
     forallb sd_leaf (tstmts t) = true ->
     incl (tvars t) (ex (gvars (seed lsr lbr snv t (tstmts t)))) ->
     pass_ok (seed lsr lbr snv t (tstmts t)) t t' st'.
   Proof.
-    intros E Hok Hs. apply (pass_correct F dg (ms_sd lsr lbr ords) sd_leaf); auto.
+    intros E Hok Hs. apply (pass_correct F dg (ms_sd lsr lbr sds ords) sd_leaf); auto.
     - intros s st l st0. apply ms_sd_ok.
     - apply sd_leaf_lf.
   Qed.
@@ -235,8 +235,8 @@ Section Pipeline.
      get_var_name_generator / get_read_variables every variable of that tree is known to it.
      The side conditions on the three intermediate trees are decidable (and are evaluated on every
      case of the correspondence check); that the passes preserve them is not proved here. *)
-  Theorem pipeline_correct lbr fixed ords t t1 t2 t3 t4 g1 g2 g3 g4 :
-    eliminate_self_dependencies true lbr true ords t = TOk (t1, g1) ->
+  Theorem pipeline_correct lbr sds fixed ords t t1 t2 t3 t4 g1 g2 g3 g4 :
+    eliminate_self_dependencies true lbr true sds ords t = TOk (t1, g1) ->
     isolate_function_arguments true lbr true t1 = TOk (t2, g2) ->
     isolate_function_calls true lbr true fixed t2 = TOk (t3, g3) ->
     expand_IfThenElse true lbr true true t3 = TOk (t4, g4) ->
@@ -249,7 +249,7 @@ Section Pipeline.
       (forall a, srel (N1 ++ N2 ++ N3 ++ N4) (run F dg t a) (run F dg t4 a)).
   Proof.
     intros E1 E2 E3 E4 H1 H2 H3 H4.
-    destruct (sd_correct F dg true lbr true ords t t1 g1 E1 H1) as (N1 & I1 & _ & F1 & _ & D1 & S1).
+    destruct (sd_correct F dg true lbr true sds ords t t1 g1 E1 H1) as (N1 & I1 & _ & F1 & _ & D1 & S1).
     { apply seed_complete. apply (okl_loopfree sd_leaf); [apply sd_leaf_lf|exact H1]. }
     destruct (fai_correct F dg true lbr true t1 t2 g2 E2 H2) as (N2 & I2 & _ & F2 & _ & D2 & S2).
     { apply seed_complete. apply (okl_loopfree fai_leaf); [apply fai_leaf_lf|exact H2]. }
@@ -262,16 +262,16 @@ Section Pipeline.
   Qed.
 
   (* run_passes on the order read off fortran.py is that composition *)
-  Lemma run_passes_fortran lsr lbr snv fixed ff ords t t4 :
-    run_passes lsr lbr snv fixed ff ords fortran_order t = TOk t4 ->
+  Lemma run_passes_fortran lsr lbr snv sds fixed ff ords t t4 :
+    run_passes lsr lbr snv sds fixed ff ords fortran_order t = TOk t4 ->
     exists t1 t2 t3 g1 g2 g3 g4,
-      eliminate_self_dependencies lsr lbr snv ords t = TOk (t1, g1) /\
+      eliminate_self_dependencies lsr lbr snv sds ords t = TOk (t1, g1) /\
       isolate_function_arguments lsr lbr snv t1 = TOk (t2, g2) /\
       isolate_function_calls lsr lbr snv fixed t2 = TOk (t3, g3) /\
       expand_IfThenElse lsr lbr snv ff t3 = TOk (t4, g4).
   Proof.
     unfold fortran_order. cbn [run_passes]. unfold pass_named. cbn.
-    destruct (eliminate_self_dependencies lsr lbr snv ords t) as [[t1 g1]|e] eqn:E1; [|discriminate].
+    destruct (eliminate_self_dependencies lsr lbr snv sds ords t) as [[t1 g1]|e] eqn:E1; [|discriminate].
     destruct (isolate_function_arguments lsr lbr snv t1) as [[t2 g2]|e] eqn:E2; [|discriminate].
     destruct (isolate_function_calls lsr lbr snv fixed t2) as [[t3 g3]|e] eqn:E3; [|discriminate].
     destruct (expand_IfThenElse lsr lbr snv ff t3) as [[t4' g4]|e] eqn:E4; [|discriminate].
@@ -289,11 +289,11 @@ Section Shapes.
   Definition seeded (lsr lbr snv : bool) (t : tree) : gst := seed lsr lbr snv t (tstmts t).
 
   Theorem sd_thm lsr snv : lsr = true -> snv = true ->
-    forall lbr ords t t' st',
-      eliminate_self_dependencies lsr lbr snv ords t = TOk (t', st') ->
+    forall lbr sds ords t t' st',
+      eliminate_self_dependencies lsr lbr snv sds ords t = TOk (t', st') ->
       forallb sd_leaf (tstmts t) = true -> pass_ok F dg (seeded lsr lbr snv t) t t' st'.
   Proof.
-    intros -> -> lbr ords t t' st' E H. apply (sd_correct F dg true lbr true ords); auto.
+    intros -> -> lbr sds ords t t' st' E H. apply (sd_correct F dg true lbr true sds ords); auto.
     apply seed_complete. apply (okl_loopfree sd_leaf); [apply sd_leaf_lf|exact H].
   Qed.
 
@@ -326,10 +326,10 @@ Section Shapes.
 
   Theorem pipeline_thm lsr snv ff order :
     lsr = true -> snv = true -> ff = true -> order = fortran_order ->
-    forall lbr fixed ords t t4,
-      run_passes lsr lbr snv fixed ff ords order t = TOk t4 ->
+    forall lbr sds fixed ords t t4,
+      run_passes lsr lbr snv sds fixed ff ords order t = TOk t4 ->
       exists t1 t2 t3 g1 g2 g3 g4,
-        eliminate_self_dependencies lsr lbr snv ords t = TOk (t1, g1) /\
+        eliminate_self_dependencies lsr lbr snv sds ords t = TOk (t1, g1) /\
         isolate_function_arguments lsr lbr snv t1 = TOk (t2, g2) /\
         isolate_function_calls lsr lbr snv fixed t2 = TOk (t3, g3) /\
         expand_IfThenElse lsr lbr snv ff t3 = TOk (t4, g4) /\
@@ -341,8 +341,8 @@ Section Shapes.
            (NoDup (tids t) -> NoDup (tids t4)) /\
            (forall a, srel (N1 ++ N2 ++ N3 ++ N4) (run F dg t a) (run F dg t4 a))).
   Proof.
-    intros -> -> -> -> lbr fixed ords t t4 E.
-    destruct (run_passes_fortran _ _ _ _ _ _ _ _ E) as (t1 & t2 & t3 & g1 & g2 & g3 & g4 & E1 & E2 & E3 & E4).
+    intros -> -> -> -> lbr sds fixed ords t t4 E.
+    destruct (run_passes_fortran _ _ _ _ _ _ _ _ _ E) as (t1 & t2 & t3 & g1 & g2 & g3 & g4 & E1 & E2 & E3 & E4).
     exists t1, t2, t3, g1, g2, g3, g4. repeat (split; [assumption|]).
     intros H1 H2 H3 H4. eapply pipeline_correct; eauto.
   Qed.
@@ -469,7 +469,7 @@ Qed.
 
 Example ex_pipeline :
   exists t1 t2 t3 t4 g1 g2 g3 g4,
-    eliminate_self_dependencies true true true [] ex_tree = TOk (t1, g1) /\
+    eliminate_self_dependencies true true true true [] ex_tree = TOk (t1, g1) /\
     isolate_function_arguments true true true t1 = TOk (t2, g2) /\
     isolate_function_calls true true true true t2 = TOk (t3, g3) /\
     expand_IfThenElse true true true true t3 = TOk (t4, g4) /\
@@ -482,3 +482,122 @@ Proof.
   split; [vm_compute; reflexivity|]. split; [vm_compute; reflexivity|]. split; [vm_compute; reflexivity|].
   split; vm_compute; reflexivity.
 Qed.
+
+Close Scope string_scope.
+
+(* ------------------------------------------------------------------------------------ *)
+(* guards: every statement derived from a leaf carries the leaf's guard                   *)
+
+(* t' is t with every statement s replaced by a statement / a block of statements related to s by R *)
+Inductive derives (R : tstmt -> list tstmt -> Prop) : tree -> tree -> Prop :=
+| DLeaf1 s x : R s [x] -> derives R (TLeaf s) (TLeaf x)
+| DLeafN s l : R s l -> derives R (TLeaf s) (TBlock (map TLeaf l))
+| DNull : derives R TNull TNull
+| DBlock l l' : Forall2 (derives R) l l' -> derives R (TBlock l) (TBlock l')
+| DIf c t t' : derives R t t' -> derives R (TIf c t) (TIf c t')
+| DIfElse c t t' e e' : derives R t t' -> derives R e e' -> derives R (TIfElse c t e) (TIfElse c t' e')
+| DFor x lo hi b b' : derives R b b' -> derives R (TFor x lo hi b) (TFor x lo hi b').
+
+(* the statements derived from s: the last one is s with rewritten expressions (same id, guard,
+   assignees); the others write generated variables only and carry the guard of s, possibly
+   extended by further conjuncts *)
+Definition carries_guard (s : tstmt) (l : list tstmt) : Prop :=
+  exists ns s',
+    l = ns ++ [s'] /\ tid s' = tid s /\ tcond s' = tcond s /\ swr s' = swr s /\
+    Forall (fun n => gext (tcond s) (tcond n)) ns.
+
+Section Guards.
+  Variable F : string -> list val -> list (string * val) -> option (list val).
+  Variable dg : bool.
+  Variable ms : tstmt -> M (list tstmt).
+  Variable okl : tstmt -> bool.
+  Hypothesis Hms : forall s st l st', okl s = true -> ms s st = TOk (l, st') -> sspec F dg s st l st'.
+
+  Lemma rewrite_derives t :
+    forallb okl (tstmts t) = true ->
+    forall st t' st', rewrite_tree ms t st = TOk (t', st') -> derives carries_guard t t'.
+  Proof.
+    induction t as [s| |l IH|c t IHt|c t e IHt IHe|x lo hi b IHb] using tree_ind'; intros Hok st t' st' E.
+    - cbn [rewrite_tree] in E. apply bind_inv in E. destruct E as (l & st1 & E1 & E2).
+      cbn [tstmts forallb] in Hok. rewrite andb_true_r in Hok.
+      destruct (Hms _ _ _ _ Hok E1) as (N & I & ns & s' & -> & X & Hid & Hc & Hw & M & D & V & Lf & Hsim).
+      assert (Hcg : carries_guard s (ns ++ [s'])).
+      { exists ns, s'. repeat (split; [assumption || reflexivity|]).
+        eapply Forall_impl; [|exact M]. intros n [A _]. exact A. }
+      destruct ns as [|n ns]; cbn [app] in E2.
+      + unfold ret in E2. inversion E2; subst. now apply DLeaf1.
+      + destruct (ns ++ [s']) as [|y r] eqn:En; [destruct ns; discriminate|].
+        unfold ret in E2. inversion E2; subst. apply (DLeafN carries_guard s (n :: y :: r)).
+        cbn [app] in Hcg. now rewrite En in Hcg.
+    - unfold rewrite_tree, ret in E. inversion E; subst. constructor.
+    - cbn [rewrite_tree] in E. apply bind_inv in E. destruct E as (l' & st1 & E1 & E2).
+      unfold ret in E2. inversion E2; subst t' st1. clear E2. cbn [tstmts] in Hok. constructor.
+      revert st l' st' E1 Hok. induction IH as [|t l Ht _ IHl]; intros st l' st' E1 Hok.
+      + unfold ret in E1. inversion E1; subst. constructor.
+      + apply bind_inv in E1. destruct E1 as (t1 & st1 & Et & E1). apply bind_inv in E1.
+        destruct E1 as (r' & st2 & Er & E1). unfold ret in E1. inversion E1; subst l' st2. clear E1.
+        cbn [flat_map] in Hok. rewrite forallb_app in Hok. apply andb_true_iff in Hok. destruct Hok as [Hok1 Hok2].
+        constructor; [eapply Ht; eauto|eapply IHl; eauto].
+    - cbn [rewrite_tree] in E. apply bind_inv in E. destruct E as (t1 & st1 & E1 & E2).
+      unfold ret in E2. inversion E2; subst. constructor. eapply IHt; eauto.
+    - cbn [rewrite_tree] in E. apply bind_inv in E. destruct E as (t1 & st1 & E1 & E2).
+      apply bind_inv in E2. destruct E2 as (e1 & st2 & E2 & E3).
+      unfold ret in E3. inversion E3; subst. cbn [tstmts] in Hok. rewrite forallb_app in Hok.
+      apply andb_true_iff in Hok. destruct Hok as [Hok1 Hok2]. constructor; [eapply IHt; eauto|eapply IHe; eauto].
+    - cbn [rewrite_tree] in E. apply bind_inv in E. destruct E as (b1 & st1 & E1 & E2).
+      unfold ret in E2. inversion E2; subst. constructor. eapply IHb; eauto.
+  Qed.
+
+  (* an extended guard that holds implies the guard it extends *)
+  Lemma gext_holds c g s r :
+    gext c g -> cond_t F s g = (r, Ok true) -> exists r', cond_t F s c = (r', Ok true).
+  Proof.
+    intros [more Hm] Hg. rewrite <- (cond_kids F s g), Hm, cond_and_app, (cond_kids F s c) in Hg.
+    destruct (cond_t F s c) as [r1 [[|]|u]]; [eauto| |]; inversion Hg.
+  Qed.
+End Guards.
+
+Section GuardsFour.
+  Variable F : string -> list val -> list (string * val) -> option (list val).
+  Variable dg : bool.
+
+  Theorem guards_sd lsr lbr snv sds ords t t' st' :
+    eliminate_self_dependencies lsr lbr snv sds ords t = TOk (t', st') ->
+    forallb sd_leaf (tstmts t) = true -> derives carries_guard t t'.
+  Proof.
+    unfold eliminate_self_dependencies, run_pass, apply_rewriter. intros E H.
+    destruct (modelled_tree t); [|discriminate]. destruct (leaves t); [|discriminate].
+    eapply (rewrite_derives F dg (ms_sd lsr lbr sds ords) sd_leaf); eauto.
+    intros s0 st0 l0 st1. apply ms_sd_ok.
+  Qed.
+
+  Theorem guards_fai lsr lbr snv t t' st' :
+    isolate_function_arguments lsr lbr snv t = TOk (t', st') ->
+    forallb fai_leaf (tstmts t) = true -> derives carries_guard t t'.
+  Proof.
+    unfold isolate_function_arguments, run_pass, apply_rewriter. intros E H.
+    destruct (modelled_tree t); [|discriminate]. destruct (leaves t); [|discriminate].
+    eapply (rewrite_derives F dg ms_fai fai_leaf); eauto.
+    intros s0 st0 l0 st1. apply ms_fai_ok.
+  Qed.
+
+  Theorem guards_fci lsr lbr snv fixed t t' st' :
+    isolate_function_calls lsr lbr snv fixed t = TOk (t', st') ->
+    forallb fci_leaf (tstmts t) = true -> derives carries_guard t t'.
+  Proof.
+    unfold isolate_function_calls, run_pass, apply_rewriter. intros E H.
+    destruct (modelled_tree t); [|discriminate]. destruct (leaves t); [|discriminate].
+    eapply (rewrite_derives F dg (ms_fci fixed) fci_leaf); eauto.
+    intros s0 st0 l0 st1. apply ms_fci_ok.
+  Qed.
+
+  Theorem guards_ite lsr lbr snv t t' st' :
+    expand_IfThenElse lsr lbr snv true t = TOk (t', st') ->
+    forallb ite_leaf (tstmts t) = true -> derives carries_guard t t'.
+  Proof.
+    unfold expand_IfThenElse, run_pass, apply_rewriter. intros E H.
+    destruct (modelled_tree t); [|discriminate]. destruct (leaves t); [|discriminate].
+    eapply (rewrite_derives F dg (ms_ite true) ite_leaf); eauto.
+    intros s0 st0 l0 st1. apply ms_ite_ok.
+  Qed.
+End GuardsFour.
